@@ -152,6 +152,7 @@ def run(ctx):
                 'M2M, a foreign key into an installed app and table names that are prefixes of other tables; '
                 '{no purge, --purge}; DeleteModel / DeleteApplication through an evolution; non-trivial = every case')
     relabelled_app_probe(ctx)
+    inherited_m2m_probe(ctx)
     n = 40 if quick else 400
     done = tries = 0
     while done < n and tries < n * 5 and ctx.time_left() > 25:
@@ -291,6 +292,55 @@ def run(ctx):
                 if len(labels) != len(set(labels)):
                     ctx.fail(None, 'an evolution is recorded twice after the purge: %s'
                              % sorted(x for x in set(labels) if labels.count(x) > 1), rep)
+
+
+def inherited_m2m_probe(ctx):
+    """a model that inherits (multi-table) from a model of another app which owns a many-to-many table: deleting
+    the child removes the child's table and nothing of the parent's"""
+    import warnings
+    from django.apps.registry import Apps
+    from django.db import models
+    from django_evolution.mutations import DeleteModel
+    for explicit in (True, False):
+        registry = Apps()
+        with warnings.catch_warnings():
+            warnings.simplefilter('ignore')
+            Person = type('Person', (models.Model,), {
+                '__module__': 'wapp.models', 'name': models.CharField(max_length=10, null=True),
+                'Meta': type('Meta', (), {'app_label': 'wapp', 'apps': registry, 'db_table': 'wapp_person'})})
+            Book = type('Book', (models.Model,), {
+                '__module__': 'wapp.models', 'title': models.CharField(max_length=10, null=True),
+                'editors': models.ManyToManyField(Person, related_name='+',
+                                                  **({'db_table': 'wapp_book_eds'} if explicit else {})),
+                'Meta': type('Meta', (), {'app_label': 'wapp', 'apps': registry, 'db_table': 'wapp_book'})})
+            Rare = type('RareBook', (Book,), {
+                '__module__': 'vapp.models', 'year': models.IntegerField(null=True),
+                'Meta': type('Meta', (), {'app_label': 'vapp', 'apps': registry, 'db_table': 'vapp_rarebook'})})
+        by_app = {'wapp': [Person, Book], 'vapp': [Rare]}
+        dbrig.reset_db('default')
+        dbrig.create_tables(by_app, 'default')
+        sig0 = dbrig.sig_from_models(by_app)
+        before = dbrig.abs_schema()
+        m2m_table = 'wapp_book_eds' if explicit else 'wapp_book_editors'
+        rep = {'scenario': 'DeleteModel of a multi-table-inheritance child whose parent (another app) owns a '
+                           'many-to-many table', 'parent_m2m_table': m2m_table, 'tables_before': sorted(before)}
+        ctx.count('inherited_m2m_probe')
+        ctx.case(rep, nontrivial=True, sample_cap=2)
+        try:
+            dbrig.evolve(sig0, 'vapp', [DeleteModel('RareBook')])
+        except Exception as e:
+            ctx.fail(None, 'deleting a model that inherits from a model with a many-to-many field fails: %s: %s'
+                     % (type(e).__name__, str(e)[:120]), rep)
+            continue
+        after = dbrig.abs_schema()
+        gone = sorted(set(before) - set(after))
+        if gone != ['vapp_rarebook']:
+            ctx.fail(None, 'deleting the child model removed the tables %s, expected only its own (vapp_rarebook)'
+                     % gone, dict(rep, tables_after=sorted(after)))
+        changed = [t for t in after if before.get(t) != after[t]]
+        if changed:
+            ctx.fail(None, 'deleting the child model altered other tables: %s' % changed, rep)
+    dbrig.reset_db('default')
 
 
 def relabelled_app_probe(ctx):
